@@ -10,6 +10,7 @@ import (
 	"strings"
 	"sync"
 	"sync/atomic"
+	"unicode/utf8"
 
 	gogitcfg "github.com/go-git/go-git/v6/config"
 	format "github.com/go-git/go-git/v6/plumbing/format/config"
@@ -187,9 +188,12 @@ func runC48(c *fw.Ctx) {
 	c.SetRule("P1: files = one of 3 section headers + every body of <= max_body_tokens tokens, and `[s] k =` + every value body (keys, '=', values, quotes, escapes, continuation, comments, blanks, tabs, newlines, a second header); files git refuses are outside the property; go-git's format.Decoder result is compared with `git config --list --null` as variable -> ordered values; P2: every boolean/integer setting go-git interprets x every spelling, against `git config --type=bool|int`; P3: generated Config values -> Marshal -> `git config --list` and go-git ReadConfig; a case is non-trivial when git reports at least one variable; distinct = (part, comparison class, variables, value shape) classes")
 	c.Assume("git 2.39.5 is the judge of which files are valid; includes are excluded from the generated files (they are only the batching vehicle: git parses an included file with the same parser); a transcription of git's parser predicts acceptance for batching only and is replayed against real git on the small space; a valueless key is compared as an empty value in P1 (format.Option cannot express it) and by meaning in P2")
 
-	c48P1(c, g)
-	c48P2(c, g)
+	if os.Getenv("S13_ONLY_NEW") == "" { // development aid: skip the unchanged parts
+		c48P1(c, g)
+		c48P2(c, g)
+	}
 	c48P3(c, g)
+	c48More(c, g)
 }
 
 // ---------------------------------------------------------------- P1
@@ -595,13 +599,17 @@ type c48Setter struct {
 }
 
 func c48P3(c *fw.Ctx, g *fw.Git) {
-	values := []string{"v", "a b", " lead", "trail ", "a#b", "a;b", "a\"b", "a\\b", "a\tb", "a\nb", "a\bb", "ä", "a=b", "[x]", "a\\", "\"", "a  b", "#", "a\\nb", "'q'"}
+	values := []string{"v", "a b", " lead", "trail ", "a#b", "a;b", "a\"b", "a\\b", "a\tb", "a\nb", "a\bb", "ä", "a=b", "[x]", "a\\", "\"", "a  b", "#", "a\\nb", "'q'",
+		// bytes an escaping routine built on Go's %q / strconv.Quote / unicode.IsPrint would rewrite:
+		// non-UTF-8, control bytes, DEL, non-printable code points, astral runes
+		"\xe9", "a\xe9b", "\xff\xfe", "\u00a0", "a\u200bb", "\x01", "a\x1bb", "\x7f", "a\vb", "\f", "\U0001F600", "\tlead", "trail\t", "a\\\"b", strings.Repeat("long ", 900)}
+	odd := []string{"\xe9", "a\xe9b", "\u00a0", "a\u200bb", "\x01", "a\x7fb", "a\tb", "ä", "\U0001F600", "a\\\"b", "a\x1b[mb"}
 	subNames := map[string][]string{
 		"":          {""},
-		"remote":    {"o", "a.b", "a\"b", "A"},
-		"branch":    {"m", "a.b", "a\"b", "f/x"},
-		"submodule": {"m", "a b", "a\"b", "a\\b", "a]b", "a.b"},
-		"url":       {"https://x/", "a b", "a\"b", "a\\b", "a]b", "a#b"},
+		"remote":    append([]string{"o", "a.b", "a\"b", "A"}, odd...),
+		"branch":    append([]string{"m", "a.b", "a\"b", "f/x"}, odd...),
+		"submodule": append([]string{"m", "a b", "a\"b", "a\\b", "a]b", "a.b"}, odd...),
+		"url":       append([]string{"https://x/", "a b", "a\"b", "a\\b", "a]b", "a#b"}, odd...),
 	}
 	c.Bound("p3_values", values)
 	c.Bound("p3_subsection_names", subNames)
@@ -714,6 +722,7 @@ func c48P3(c *fw.Ctx, g *fw.Git) {
 		merr     string
 	}
 	var cases []*p3case
+	validSubs := map[string]map[string]bool{} // per field: subsection names go-git's Validate accepts
 	for si, st := range setters {
 		for _, sub := range subNames[st.sub] {
 			for _, v := range values {
@@ -741,6 +750,10 @@ func c48P3(c *fw.Ctx, g *fw.Git) {
 				if cs.merr == "invalid" {
 					continue // go-git itself refuses this Config value
 				}
+				if validSubs[st.name] == nil {
+					validSubs[st.name] = map[string]bool{}
+				}
+				validSubs[st.name][sub] = true
 				cases = append(cases, cs)
 			}
 		}
@@ -813,12 +826,50 @@ func c48P3(c *fw.Ctx, g *fw.Git) {
 		x, y := fails[a], fails[b]
 		return x.kind+x.val+x.field+x.sub < y.kind+y.val+y.field+y.sub
 	})
+	// one defect, one key: go-git's decoder refuses bytes that are not valid
+	// UTF-8 wherever they stand, so every case carrying such a byte in the
+	// subsection name or the value fails to load whatever the field
+	const nonUTF8Key = "P3 go-git cannot read its own output: bytes that are not valid UTF-8 in a subsection name or value"
+	{
+		var rest []p3fail
+		for _, f := range fails {
+			if f.kind == "go-git cannot read its own output" && (!utf8.ValidString(f.sub) || !utf8.ValidString(f.val)) {
+				c.Fail(nonUTF8Key, nonUTF8Key+" :: "+f.field+" :: "+f.detail, map[string]any{"field": f.field, "subsection": f.sub, "value": f.val, "kind": f.kind, "detail": f.detail})
+				continue
+			}
+			rest = append(rest, f)
+		}
+		fails = rest
+	}
+	// a subsection name for which (nearly) every value of a field fails is a
+	// problem of the NAME: one key per (kind, name)
+	{
+		nVals := map[string]int{} // field+sub -> cases
+		for _, cs := range cases {
+			nVals[setters[cs.setter].name+"\x00"+cs.sub]++
+		}
+		cnt := map[string]map[string]bool{}
+		for _, f := range fails {
+			k := f.kind + "\x00" + f.field + "\x00" + f.sub
+			if cnt[k] == nil {
+				cnt[k] = map[string]bool{}
+			}
+			cnt[k][f.val] = true
+		}
+		var rest []p3fail
+		for _, f := range fails {
+			n := nVals[f.field+"\x00"+f.sub]
+			if f.sub != "" && n >= 5 && len(cnt[f.kind+"\x00"+f.field+"\x00"+f.sub])*5 >= n*4 {
+				key := fmt.Sprintf("P3 %s: subsection name %s (every value)", f.kind, fw.Q(f.sub))
+				c.Fail(key, key+" :: "+f.field+" :: "+f.detail, map[string]any{"field": f.field, "subsection": f.sub, "value": f.val, "kind": f.kind, "detail": f.detail})
+				continue
+			}
+			rest = append(rest, f)
+		}
+		fails = rest
+	}
 	perKV := map[string]map[string]bool{}
 	perKFV := map[string]map[string]bool{}
-	fieldKind := map[string]string{}
-	for _, st := range setters {
-		fieldKind[st.name] = st.sub
-	}
 	for _, f := range fails {
 		k := f.kind + "\x00" + f.val
 		if perKV[k] == nil {
@@ -836,7 +887,8 @@ func c48P3(c *fw.Ctx, g *fw.Git) {
 		var key string
 		if len(perKV[k]) >= 3 {
 			key = fmt.Sprintf("P3 %s: value %s (many fields)", f.kind, fw.Q(f.val))
-		} else if len(perKFV[k+"\x00"+f.field]) == len(subNames[fieldKind[f.field]]) {
+		} else if n := len(perKFV[k+"\x00"+f.field]); n == len(validSubs[f.field]) || (n >= 4 && n*5 >= len(validSubs[f.field])*3) {
+			// (nearly) every name: names that fail for a reason of their own are keyed by the name above
 			key = fmt.Sprintf("P3 %s: %s value %s (every subsection name)", f.kind, f.field, fw.Q(f.val))
 		} else {
 			key = fmt.Sprintf("P3 %s: %s[%s] value %s", f.kind, f.field, fw.Q(f.sub), fw.Q(f.val))
